@@ -168,17 +168,17 @@ ScanNumber(t, i) ==
 (* Strings: "..." with the escapes \" \' \\ \n \t \0 \r \u{hex}.           *)
 
 \* hex digits up to `}`: [e = index behind `}` or -1, v = value (saturated), nd = digits,
-\* sig = significant digits, ok = only hex digits]
-RECURSIVE HexScan(_, _, _, _, _, _)
-HexScan(t, i, v, nd, sig, ok) ==
+\* sig = significant digits, ok = only hex digits, quote = a `"` was met on the way]
+RECURSIVE HexScan(_, _, _, _, _, _, _)
+HexScan(t, i, v, nd, sig, ok, quote) ==
   LET c == At(t, i) IN
-  IF c = -1 THEN [e |-> -1, v |-> v, nd |-> nd, sig |-> sig, ok |-> ok]
-  ELSE IF c = 125 THEN [e |-> i + 1, v |-> v, nd |-> nd, sig |-> sig, ok |-> ok]
+  IF c = -1 THEN [e |-> -1, v |-> v, nd |-> nd, sig |-> sig, ok |-> ok, quote |-> quote]
+  ELSE IF c = 125 THEN [e |-> i + 1, v |-> v, nd |-> nd, sig |-> sig, ok |-> ok, quote |-> quote]
   ELSE IF IsHex(c)
        THEN LET h == HexVal(c)
                 v2 == IF v > 1114111 THEN v ELSE v * 16 + h        \* saturates above the last scalar
-            IN HexScan(t, i + 1, v2, nd + 1, IF sig > 0 \/ h > 0 THEN sig + 1 ELSE 0, ok)
-       ELSE HexScan(t, i + 1, v, nd, sig, FALSE)
+            IN HexScan(t, i + 1, v2, nd + 1, IF sig > 0 \/ h > 0 THEN sig + 1 ELSE 0, ok, quote)
+       ELSE HexScan(t, i + 1, v, nd, sig, FALSE, quote \/ c = 34)
 
 \* i = index of the next character inside the string that opened at q
 RECURSIVE ScanStr(_, _, _, _, _, _)
@@ -204,12 +204,14 @@ ScanStr(t, q, i, buf, errs, trig) ==
             THEN IF At(t, i + 2) # 123
                  THEN ScanStr(t, q, i + 2, buf, Append(errs, Err("BadUnicodeEscape", i, i + 2)),
                               trig \cup {"u_no_brace"})
-                 ELSE LET h == HexScan(t, i + 3, 0, 0, 0, TRUE) IN
-                      IF h.e = -1 THEN fin2(Len(t) + 1, FALSE, IF h.sig > 8 THEN trig \cup {"u_overflow"} ELSE trig)
+                 ELSE LET h == HexScan(t, i + 3, 0, 0, 0, TRUE, FALSE)
+                          tr == trig \cup (IF h.sig > 8 THEN {"u_overflow"} ELSE {})
+                                     \cup (IF h.e = -1 \/ h.quote THEN {"u_unclosed"} ELSE {})
+                      IN
+                      IF h.e = -1 THEN fin2(Len(t) + 1, FALSE, tr)
                       ELSE IF h.ok /\ h.nd >= 1 /\ IsScalar(h.v)
                            THEN ScanStr(t, q, h.e, Append(buf, h.v), errs, trig)
-                           ELSE ScanStr(t, q, h.e, buf, Append(errs, Err("BadUnicodeEscape", i, h.e)),
-                                        IF h.sig > 8 THEN trig \cup {"u_overflow"} ELSE trig)
+                           ELSE ScanStr(t, q, h.e, buf, Append(errs, Err("BadUnicodeEscape", i, h.e)), tr)
        ELSE ScanStr(t, q, i + 2, buf, Append(errs, Err("UnknownEscapeSequence", i, i + 2)), trig)
 
 ---------------------------------------------------------------------------
